@@ -123,7 +123,7 @@ func init() {
 		if os.Getenv("C05_ONLY") == "Rw" {
 			c05RegisterRw(c)
 			c05RegisterRs(c)
-		plLeg(c, 250, 6000) // leg Pl: the whole reducer as one Lean function (pipeline.go)
+			plLeg(c, 250, 6000) // leg Pl: the whole reducer as one Lean function (pipeline.go)
 			return
 		}
 		g := &engGen{allowRTL: true, perPat: 8, maxLen: 10, biasRewrite: true}
@@ -141,5 +141,7 @@ func init() {
 		c05RegisterRw(c)
 		c05RegisterRs(c)
 		plLeg(c, 250, 6000) // leg Pl: the whole reducer as one Lean function (pipeline.go)
+		// the query functions canBeMadeAtomic relies on (MayOverlap, Equals, CharIn side conditions): leg Kq of C16 at a small size
+		c16QueryLeg(c, 150, 3000)
 	})
 }
